@@ -65,7 +65,7 @@ def mk_link(name, materials=None, products=None, command=(), byproducts=None, en
             "environment": environment}
 
 
-def sign_all(binpath, reqs, nproc=None):
+def sign_all(binpath, reqs, nproc=None, tolerate=False):
     """reqs: list of (signed_doc, [signer names], via) -> list of wire documents (dicts).
     A request the library refuses to sign raises Inconclusive (the generators only emit
     signable documents)."""
@@ -74,6 +74,9 @@ def sign_all(binpath, reqs, nproc=None):
         else common.run_batch(binpath, cases)
     out = []
     for c, o in zip(cases, obs):
+        if "ok" not in o and tolerate and "crash" not in o and "watchdog" not in o and "missing" not in o:
+            out.append(None)         # the caller deals with documents the library would not sign
+            continue
         if "ok" not in o:
             raise common.Inconclusive(f"library refused to sign a generated document: {str(o)[:400]} "
                                       f"doc={json.dumps(c['signed'])[:400]}")
